@@ -26,9 +26,18 @@ Stmts(d, j) ==
    SLet(PTup(<<PId("a"), PTup(<<PId("b"), PIgn>>)>>), TTup(<<T8, TP>>),
         ETuple(<<K(d, j, 1), ETuple(<<K(d, j, 2), V("a")>>)>>)),
    SLet(PIgn, T8, V("a")),
+   \* a pattern that re-binds one of the probed names together with an unrelated third name
+   SLet(PTup(<<PId("a"), PId("c")>>), TP, ETuple(<<K(d, j, 2), V("a")>>)),
+   SLet(PArr(<<PId("c"), PId("b")>>), TArr(T8, 2), EArray(<<V("b"), K(d, j, 3)>>)),
    \* the bindings of an inner block vanish when it ends; its value can escape
    SLet(PId("a"), T8, BlkE(<<SLet(PId("a"), T8, K(d, j, 2)), SLet(PId("b"), T8, V("a"))>>, V("b"))),
    SExpr(Blk(<<SLet(PId("a"), T8, K(d, j, 3)), SLet(PId("b"), T8, K(d, j, 1))>>)),
+   \* a binding of another TYPE shadows (inner block) or replaces (same block) the old one: the type checker's
+   \* lookup must find the nearest binding too, or a well-typed program is rejected
+   SLet(PId("b"), T8, BlkE(<<SLet(PId("a"), TU(16), Dec(256 * (16 * d + 4 * j + 3) + 5))>>,
+                           ECall(CJet("leftmost_16_8"), <<V("a")>>))),
+   SLet(PId("a"), T8, BlkE(<<SLet(PId("b"), TU(16), Dec(256 * (16 * d + 4 * j + 4) + 6)),
+                             SLet(PId("b"), T8, ECall(CJet("rightmost_16_8"), <<V("b")>>))>>, V("b"))),
    \* match arms bind a / b only inside the arm
    SLet(PId("b"), T8, EMatch(V("w"), <<Arm(MLeft("a", T8), V("a")), Arm(MRight("b", T8), V("a"))>>)),
    SLet(PTup(<<PId("a"), PId("b")>>), TP,
@@ -49,9 +58,14 @@ RECURSIVE StmtSeqs(_, _, _)
 StmtSeqs(d, j, n) == IF n = 0 THEN {<<>>}
                      ELSE {<<s>> \o t : s \in Stmts(d, j), t \in StmtSeqs(d, j + 1, n - 1)}
 
+\* thorough tier: inner blocks of two statements, one sixth of the pairs (which sixth depends on the seed)
+PairSeqs(d) == LET s1 == SetToSeq(Stmts(d, 1)) s2 == SetToSeq(Stmts(d, 2))
+               IN UNION {{<<s1[i], s2[j]>> : j \in {j2 \in 1..Len(s2) : ((i + 3 * j2 + Seed) % 6) = 0}} : i \in 1..Len(s1)}
+InnerSeqs(d, n) == IF n = 2 THEN PairSeqs(d) ELSE StmtSeqs(d, 1, n)
+
 RECURSIVE Bodies(_)
 Bodies(d) == IF d = 0 THEN Probes
-             ELSE Probes \cup UNION {{BlkE(ss, e) : ss \in StmtSeqs(d, 1, n), e \in Bodies(d - 1)} : n \in 1..InnerMax}
+             ELSE Probes \cup UNION {{BlkE(ss, e) : ss \in InnerSeqs(d, n), e \in Bodies(d - 1)} : n \in 1..InnerMax}
 
 \* family descriptor: the first statement of the outermost block (splits the work among workers)
 ScFamilies == {[first |-> s] : s \in Stmts(2, 1)} \cup {[first |-> [k |-> "probe"]]}
